@@ -2,7 +2,7 @@
    Observed annotations are compared as sorted lists. Definitions only. *)
 From Coq Require Import String Ascii List Bool Arith ZArith.
 From Coq Require Import PrimFloat.
-From Hpotk Require Import Base.Result Base.Str Base.Emit TermId.Model Corr.Graph Hpoa.Float Hpoa.Model.
+From Hpotk Require Import Base.Result Base.Str Base.Emit TermId.Model Corr.Graph Hpoa.Float Hpoa.Model Hpoa.Text.
 Import ListNotations.
 Open Scope string_scope.
 Open Scope list_scope.
@@ -50,3 +50,18 @@ Definition hpoa_model_answer (c : hcase) : res (list odisease) :=
 Definition check_freq_table (obs : list (float * float * float)) : bool :=
   list_eqb (fun a b => PrimFloat.eqb (fst (fst a)) (fst (fst b)) && PrimFloat.eqb (snd (fst a)) (snd (fst b)) && PrimFloat.eqb (snd a) (snd b))
            (map (fun b => (fst b, snd b, term_frequency b)) freq_bounds) obs.
+
+(* text level: the lines of a real file (with their line ends), the float() oracle for the percentage
+   literals that occur in it, what the implementation loaded, and the version it reported *)
+Record tcase := mkTCase { tc_cohort : Z; tc_salvage : bool; tc_cvt : list (string * float); tc_lines : list string;
+                          tc_obs : res (list odisease); tc_version : option string }.
+
+Definition check_hpoa_text_case (c : tcase) : bool :=
+  match load_text (tc_cohort c) (tc_salvage c) (tc_cvt c) (tc_lines c), tc_obs c with
+  | Ok (ds, v), Ok obs => list_eqb odisease_eqb (dsort (map render_disease ds)) obs && opt_eqb seqb v (tc_version c)
+  | Err e, Err e' => exn_eqb e e'
+  | _, _ => false
+  end.
+
+Definition hpoa_text_model_answer (c : tcase) : res (list odisease * option string) :=
+  rmap (fun dv => (dsort (map render_disease (fst dv)), snd dv)) (load_text (tc_cohort c) (tc_salvage c) (tc_cvt c) (tc_lines c)).
